@@ -25,8 +25,10 @@ TDone ==
      THEN /\ Cur.status = r.status /\ Cur.ran = 0 /\ Cur.iran = 0
           /\ (r.status = 405 => Cur.allow = "POST")
           /\ (r.status = 415 => Range(Cur.ap) = AcceptPost(sc) /\ Len(Cur.ap) = Cardinality(AcceptPost(sc)))
-     ELSE IF Fuzzed /\ r.ran # {0}
-     THEN \* arbitrary body bytes: anything but a malformed response; user code at most once
+     ELSE IF Fuzzed /\ sc.enc # "unknown" /\ TimeoutOK(sc)
+     THEN \* arbitrary body bytes in a request that gets as far as its body: anything but a malformed response; user
+          \* code at most once.  (The class of the scenario the bytes replaced says nothing: random bytes can be a
+          \* message -- a thorough run met five bytes that were.)
           Cur.status \notin {405, 415, 505}
      ELSE \E v \in {r} \cup Alternative(sc) :
           /\ Cur.code \in v.codes /\ Cur.ran \in v.ran /\ Cur.iran \in v.iran
